@@ -930,7 +930,15 @@ def object_to_xml_element(obj: object) -> etree._Element:
     elif isinstance(obj, model.ConceptDescription):
         serialization_func = concept_description_to_xml
     elif isinstance(obj, model.LangStringSet):
-        serialization_func = lang_string_set_to_xml
+        # a LangStringSet has no tag of its own: use the tag of the attribute that its type is used for
+        for lss_type, lss_tag in ((model.MultiLanguageNameType, "displayName"),
+                                  (model.MultiLanguageTextType, "description"),
+                                  (model.DefinitionTypeIEC61360, "definition"),
+                                  (model.PreferredNameTypeIEC61360, "preferredName"),
+                                  (model.ShortNameTypeIEC61360, "shortName")):
+            if isinstance(obj, lss_type):
+                return lang_string_set_to_xml(obj, tag=NS_AAS + lss_tag)
+        raise ValueError(f"{obj!r} cannot be serialized!")
     elif isinstance(obj, model.EmbeddedDataSpecification):
         serialization_func = embedded_data_specification_to_xml
     elif isinstance(obj, model.DataSpecificationIEC61360):
@@ -942,8 +950,8 @@ def object_to_xml_element(obj: object) -> etree._Element:
         serialization_func = submodel_to_xml
     elif isinstance(obj, model.DataSpecificationContent):
         serialization_func = data_specification_content_to_xml
-    # type aliases
-    elif isinstance(obj, model.ValueList):
+    # type aliases (ValueList = Set[ValueReferencePair] cannot be used with isinstance())
+    elif isinstance(obj, set) and all(isinstance(e, model.ValueReferencePair) for e in obj):
         serialization_func = value_list_to_xml
     else:
         raise ValueError(f"{obj!r} cannot be serialized!")
